@@ -36,6 +36,7 @@ WIDE = (
     + [H.S(1, typ="GIFT"), H.S(1, fee=1), H.M(2, 1)]
 )
 
+TZ_DEVS = (540, -300, -480)
 EDGE_KEYS = ("event", "lot", "type", "amount", "proceeds", "cost", "gain", "long", "event_k", "event_n", "lot_k", "running")
 
 
@@ -67,7 +68,8 @@ class Runner:
         return hit
 
 
-def judge_node(st: Stats, runner: Runner, hist: History, specs: List[Dict[str, Any]], sch: Sequence[Tuple[int, str]], only_cut: Optional[int] = None) -> None:
+def judge_node(st: Stats, runner: Runner, hist: History, specs: List[Dict[str, Any]], sch: Sequence[Tuple[int, str]], only_cut: Optional[int] = None,
+               edge_only: bool = False) -> None:
     from rp2verif.seams import compute as C
 
     st.inc("states")
@@ -110,7 +112,7 @@ def judge_node(st: Stats, runner: Runner, hist: History, specs: List[Dict[str, A
             st.violation(dict(base, cut=k, signature=f"C09 continuation changed earlier results / {problem.split(':')[0].split('[')[0]}",
                               what=f"{tag} :: full history vs history truncated at the cut :: {problem}"))
         # (2) to-date form: run limited to the day of the cut == run on the truncated history
-        if cts[k - 1].date() < cts[k].date():
+        if not edge_only and cts[k - 1].date() < cts[k].date():
             st.inc("traces_validated_against_impl")
             st.inc("to_date_comparisons")
             w = C.run_window(specs, sch, None, cts[k - 1].date())
@@ -139,6 +141,18 @@ def worker(task: Tuple[Any, ...]) -> Stats:
         specs = H.materialize(hist, row_order=row_order)
         if specs is None:
             continue
+        if dev == "tz":
+            # one transaction carries another UTC offset, steps are hours: wall-clock order contradicts instant order.
+            # Only the edge form applies (a to-date is a local calendar date).
+            for i in range(len(hist)):
+                for tz in TZ_DEVS:
+                    h2 = tuple((it[0], it[1], tz if j == i else 0) for j, it in enumerate(hist))
+                    s2 = H.materialize(h2, row_order=row_order)
+                    if s2 is None:
+                        continue
+                    for sch in schedules:
+                        judge_node(st, runner, h2, s2, sch, edge_only=True)
+            continue
         for sch in schedules:
             judge_node(st, runner, hist, specs, sch)
     return st
@@ -154,6 +168,7 @@ def plan(tier: str) -> List[Dict[str, Any]]:
             {"name": "intraday cuts", "schedules": singles, "steps": ("=", "h", "d"), "depth": 3, "dev": 0, "group": 2},
             {"name": "wide alphabet", "schedules": singles, "steps": ("=", "d"), "depth": 3, "dev": "wide", "group": 1, "symbols": "wide"},
             {"name": "sheet order reversed", "schedules": singles, "steps": ("=", "d", "y"), "depth": 3, "dev": 0, "group": 2, "row_order": "reverse"},
+            {"name": "one transaction in another UTC offset (edge form)", "schedules": singles, "steps": ("=", "h"), "depth": 3, "dev": "tz", "group": 2},
         ]
     return [
         {"name": "preferred continuations, single methods", "schedules": singles, "steps": ("=", "d", "y"), "depth": 4, "dev": 0, "group": 1},
@@ -161,6 +176,7 @@ def plan(tier: str) -> List[Dict[str, Any]]:
         {"name": "intraday cuts", "schedules": singles, "steps": ("=", "h", "d"), "depth": 4, "dev": 0, "group": 1},
         {"name": "wide alphabet", "schedules": singles, "steps": ("=", "d"), "depth": 4, "dev": "wide", "group": 1, "symbols": "wide"},
         {"name": "sheet order reversed", "schedules": singles, "steps": ("=", "d", "y"), "depth": 4, "dev": 0, "group": 2, "row_order": "reverse"},
+        {"name": "one transaction in another UTC offset (edge form)", "schedules": singles, "steps": ("=", "h"), "depth": 4, "dev": "tz", "group": 1},
         {"name": "preferred continuations, depth 5", "schedules": singles, "steps": ("=", "d", "y"), "depth": 5, "dev": 0, "group": 1, "from_depth": 5},
     ]
 
@@ -204,7 +220,7 @@ def main(tier: str, budget_s: Optional[float] = None) -> int:
         "samples": total.samples[:6],
     }
     common.write_evidence(PROP, tier, LEVEL, coverage, time.time() - t0, new, assumptions=[
-        "single time zone (UTC) in this driver: the to-date cut is by local calendar date while sets are ordered by instant; mixed offsets around midnight are outside the alphabet",
+        "the to-date form runs in a single time zone (the to-date cut is by local calendar date while sets are ordered by instant); mixed UTC offsets are explored in the edge form only",
         "the lot's own fraction count (k of N) may grow with later disposals and is excluded from the edge form; it is included in the to-date form",
     ])
     print(f"{PROP} {tier}: states={total.get('states')} cuts={total.get('transitions')} comparisons={total.get('traces_validated_against_impl')} "
@@ -222,7 +238,8 @@ def replay(path: str) -> int:
     with open(path, encoding="utf-8") as f:
         p = json.load(f)
     st = Stats()
-    judge_node(st, Runner(), _to_tuple(p["hist"]), p["specs"], [tuple(x) for x in p["schedule"]], p.get("cut"))
+    hist = _to_tuple(p["hist"])
+    judge_node(st, Runner(), hist, p["specs"], [tuple(x) for x in p["schedule"]], p.get("cut"), edge_only=any(len(it) > 2 and it[2] for it in hist))
     if st.violations:
         print(f"VIOLATION property={PROP} replay={path}\n  {st.violations[0]['what']}")
         return 1
